@@ -103,13 +103,8 @@ func (w *World) setup() error {
 		in := p.Inject[i]
 		w.at(time.Duration(in.AtMs)*time.Millisecond, "inject", func() { w.adv.inject(in) })
 	}
-	if p.HealAtMs > 0 {
-		w.at(time.Duration(p.HealAtMs)*time.Millisecond, "heal", func() {
-			w.logf("SYNC-PHASE quorum=%v", p.Sync)
-			for _, f := range w.hooks.afterStep {
-				_ = f
-			}
-		})
+	if p.Sync != nil {
+		w.at(time.Duration(p.HealAtMs)*time.Millisecond, "heal", func() { w.heal() })
 	}
 	// start every replica at time 0, in slot order
 	for _, nd := range w.nodes {
